@@ -6,5 +6,8 @@ OBLIGATIONS = [
   Ob('C03.seq_conn', 'C03/seq.cc', 'h_seq_conn', tier='quick', unwind=7, defines={'NB': 6, 'MAXF': 1}, max_alloc=16, stubs={DS: 'ret0'},
      bound='6 symbolic bytes (symbolic length), bitstream 2.1 and 2.2, <= 1 face; real Mesh/PointCloud objects; compressed-index path (DecodeSymbols) cut',
      covers='MeshSequentialDecoder::DecodeConnectivity (raw index branches uint8/uint16/varint/uint32), Mesh::AddFace, PointCloud::set_num_points'),
+  Ob('C03.eb_attr_claim', 'C03/ebattr.cc', 'h_eb_attr_claim', tier='quick', unwind=6, defines={'NB': 4, 'NSLOT': 2}, max_alloc=32, ub=True, flavour='nospec',
+     bound='4 symbolic header bytes (symbolic length), every bitstream version 1.2..2.2, 0..2 attribute-data slots with arbitrary binding state, decoder id 0..7; headers that go on to build a traversal sequencer are cut',
+     covers='MeshEdgebreakerDecoderImpl<MeshEdgebreakerTraversalDecoder>::CreateAttributesDecoder (slot binding, range and re-binding guards, traversal-method validation) on the real decoder objects'),
 ]
 META = {}
